@@ -2,6 +2,7 @@
 """Writes /verif/baseline_fns.txt: the function paths of the tree on which the rules were confirmed (all configurations).
 Run by hand after a confirmed change of /repo's function set (e.g. a fix: commit that adds a helper); never at check time."""
 import os
+import re
 import sys
 sys.path.insert(0, os.path.dirname(os.path.abspath(__file__)))
 from vplib import facts, inline
@@ -35,7 +36,9 @@ for c in cfgs:
                 for bl in b["blocks"]:
                     tt = bl["term"]
                     if tt["k"] == "call" and "indirect" not in tt["callee"]:
-                        cs.add(tt["callee"].get("resolved") or tt["callee"]["path"])
+                        cn = tt["callee"].get("resolved") or tt["callee"]["path"]
+                        mm = re.search(r"core::iter::traits::iterator::Iterator>?::(try_fold|fold)$", cn)
+                        cs.add("core::iter::traits::iterator::Iterator::" + mm.group(1) if mm else cn)
             if b["promoted"] is None:
                 names.add(b["fn"])
                 present.setdefault(b["fn"], set()).add(cfgs.index(c))
@@ -50,6 +53,7 @@ print(len(names), "functions")
 
 import json as _json
 with open(os.path.join(os.path.dirname(inline.BASELINE), "baseline_items.json"), "w") as f:
-    ADAPT = ("core::option::Option::map", "core::result::Result::map", "core::option::Option::map_or", "core::option::Option::and_then")
+    ADAPT = ("core::option::Option::map", "core::result::Result::map", "core::option::Option::map_or", "core::option::Option::and_then",
+             "core::iter::traits::iterator::Iterator::fold", "core::iter::traits::iterator::Iterator::try_fold")
     _json.dump({"adts": adts, "consts": consts, "adaptor_calls": {k: sorted(c for c in v if c in ADAPT) for k, v in calls.items() if any(c in ADAPT for c in v)}}, f, indent=0, sort_keys=True, ensure_ascii=False)
 print(len(adts), "adts", len(consts), "consts")
